@@ -58,7 +58,44 @@ type Hist struct {
 	Overlay []KV     `json:"overlay"`
 	Addrs   []string `json:"addrs"`
 	Slots   []string `json:"slots"`
-	Ops     []Op     `json:"ops"`
+	// Pre: an earlier transaction, run on its own StateDB over the same block cache and committed
+	// (StateDB.Commit) before the observed history starts; its effects are backend content.
+	Pre []Op `json:"pre,omitempty"`
+	Ops []Op `json:"ops"`
+}
+
+// burstValue: the i-th value written by a "Burst" op (N writes to one slot, values base+i).
+func burstValue(base int64, i uint64) ethcomm.Hash {
+	return ethcomm.BigToHash(new(big.Int).Add(big.NewInt(base), new(big.Int).SetUint64(i)))
+}
+
+// applyPlain runs one non-stack op of a prologue; panics are swallowed (the prologue only has to
+// leave committed state behind).
+func applyPlain(sd *storage.StateDB, addrs []ethcomm.Address, slots []ethcomm.Hash, o Op) {
+	if o.A < 0 || o.A >= len(addrs) || o.S < 0 || o.S >= len(slots) {
+		panic("bad index in prologue")
+	}
+	a, k := addrs[o.A], slots[o.S]
+	try(func() {
+		switch o.Op {
+		case "SetState":
+			sd.SetState(a, k, ethcomm.BytesToHash(hx.UnHex(o.Val)))
+		case "Burst":
+			for i := uint64(0); i < o.N; i++ {
+				sd.SetState(a, k, burstValue(o.Idx, i))
+			}
+		case "SetNonce":
+			sd.SetNonce(a, o.N)
+		case "SetCode":
+			sd.SetCode(a, hx.UnHex(o.Code))
+		case "AddBalance":
+			sd.AddBalance(a, amt(o.Amt))
+		case "SubBalance":
+			sd.SubBalance(a, amt(o.Amt))
+		case "Suicide":
+			sd.Suicide(a)
+		}
+	})
 }
 
 // ---------- running a history on the implementation ----------
@@ -417,9 +454,19 @@ type stepRec struct {
 	dberr    bool
 }
 
-// runHist executes one history on the implementation, applies the oracle and writes the
-// correspondence case (verbose: literal getter vectors; otherwise fingerprints).
-func runHist(c *hx.Ctx, h *Hist, verbose bool) {
+const (
+	modeDigest  = iota // correspondence case with fingerprints
+	modeVerbose        // correspondence case with literal getter vectors
+	modeOracle         // oracle only (no case): the unwinding probe of a history that ends with live snapshots
+)
+
+// runHist executes one history on the implementation, applies the oracle and (unless mode is
+// modeOracle) writes the correspondence case. A history that ends with live snapshots is then run
+// once more, oracle only, extended by RevertToSnapshot(top) ... RevertToSnapshot(0): every saved
+// snapshot gets installed and read, so damage to a snapshot that the history itself never reverts
+// to still yields a concrete failing history.
+func runHist(c *hx.Ctx, h *Hist, mode int) {
+	verbose := mode == modeVerbose
 	c.Eval()
 	store := leveldbstore.NewMemLevelDBStore()
 	defer store.Close()
@@ -440,15 +487,29 @@ func runHist(c *hx.Ctx, h *Hist, verbose bool) {
 		touched[kv.K] = true
 	}
 
-	cache := storage.NewCacheDB(overlay)
-	sd := storage.NewStateDB(cache, ethcomm.Hash{}, ethcomm.Hash{}, ong.OngBalanceHandle{})
-	e := &env{sd: sd, cache: cache}
+	var uaddrs []ethcomm.Address
+	var uslots []ethcomm.Hash
 	for _, a := range h.Addrs {
-		e.addrs = append(e.addrs, ethcomm.BytesToAddress(hx.UnHex(a)))
+		uaddrs = append(uaddrs, ethcomm.BytesToAddress(hx.UnHex(a)))
 	}
 	for _, s := range h.Slots {
-		e.slots = append(e.slots, ethcomm.BytesToHash(hx.UnHex(s)))
+		uslots = append(uslots, ethcomm.BytesToHash(hx.UnHex(s)))
 	}
+	if len(h.Pre) > 0 {
+		pre := storage.NewStateDB(storage.NewCacheDB(overlay), ethcomm.Hash{}, ethcomm.Hash{}, ong.OngBalanceHandle{})
+		for _, o := range h.Pre {
+			applyPlain(pre, uaddrs, uslots, o)
+		}
+		if err := pre.Commit(); err != nil {
+			panic(err)
+		}
+		overlay.GetWriteSet().ForEach(func(key, val []byte) { touched[hx.Hex(key)] = true })
+		overlay.SetError(nil)
+	}
+
+	cache := storage.NewCacheDB(overlay)
+	sd := storage.NewStateDB(cache, ethcomm.Hash{}, ethcomm.Hash{}, ong.OngBalanceHandle{})
+	e := &env{sd: sd, cache: cache, addrs: uaddrs, slots: uslots}
 	e.mkNames()
 
 	// Keccak table: codes set by the history, then code entries of the backend that are stored under their hash
@@ -521,6 +582,16 @@ func runHist(c *hx.Ctx, h *Hist, verbose bool) {
 			val := ethcomm.BytesToHash(hx.UnHex(o.Val))
 			coqOp = fmt.Sprintf("CSetState %s %s %s", ai, si, coqWord(val[:]))
 			kind, msg = try(func() { sd.SetState(a, k, val) })
+		case "Burst":
+			if o.N > 4096 || o.Idx < 0 {
+				panic("bad burst in history")
+			}
+			coqOp = fmt.Sprintf("CBurst %s %s %s %d", ai, si, hx.CoqNat(int(o.N)), o.Idx)
+			kind, msg = try(func() {
+				for j := uint64(0); j < o.N; j++ {
+					sd.SetState(a, k, burstValue(o.Idx, j))
+				}
+			})
 		case "SetNonce":
 			coqOp = fmt.Sprintf("CSetNonce %s %d", ai, o.N)
 			kind, msg = try(func() { sd.SetNonce(a, o.N) })
@@ -671,6 +742,19 @@ func runHist(c *hx.Ctx, h *Hist, verbose bool) {
 		c.Nontrivial(string(b))
 	}
 
+	if mode == modeOracle {
+		return
+	}
+	if n := len(shadow); n > 0 {
+		h2 := *h
+		h2.Kind = h.Kind + "+unwind"
+		h2.Ops = append([]Op{}, h.Ops...)
+		for j := n - 1; j >= 0; j-- {
+			h2.Ops = append(h2.Ops, Op{Op: "Revert", Idx: int64(j)})
+		}
+		defer runHist(c, &h2, modeOracle)
+	}
+
 	var as, ss []string
 	for _, a := range e.addrs {
 		as = append(as, coqWord(a[:]))
@@ -747,21 +831,25 @@ func Run(c *hx.Ctx) {
 	c.CoqModule("Corr.C08")
 	var in Hist
 	if c.ReplayInput(&in) {
-		runHist(c, &in, true)
+		if len(in.Addrs) == 0 || len(in.Slots) == 0 {
+			c.Note("replay input is not a C08 history (no addrs/slots)")
+			return
+		}
+		runHist(c, &in, modeVerbose)
 		return
 	}
 	for _, raw := range c.CorpusInputs() {
 		var h Hist
 		if json.Unmarshal(raw, &h) == nil && len(h.Addrs) > 0 {
 			h.Kind = "corpus"
-			runHist(c, &h, true)
+			runHist(c, &h, modeVerbose)
 		}
 	}
 	for _, h := range fixedHistories() {
-		runHist(c, h, true)
+		runHist(c, h, modeVerbose)
 	}
 	n := c.N(200, 2400)
 	for i := 0; i < n; i++ {
-		runHist(c, genHist(c, i), false)
+		runHist(c, genHist(c, i), modeDigest)
 	}
 }
